@@ -26,7 +26,8 @@ package searcher
 // the first n parked entries: live, not in the heap, pairwise different
 //@ spec parkedOK(s *DisjunctionHeapSearcher, mc []*SearcherCurr, n int) bool = forall(k, 0, n, entryOK(mc[k]) && !dhas(s, mc[k])) && forall(p, 0, n, forall(q, p+1, n, mc[p] != mc[q]))
 //@ spec noAlias(a []*SearcherCurr, b []*SearcherCurr) bool = cap(a) == 0 || cap(b) == 0 || base(a) != base(b)
-//@ spec dhsShape(s *DisjunctionHeapSearcher) bool = s.initialized && ddistinct(s) && heapEntriesOK(s) && noAlias(s.heap, s.matchingCurrs)
+//@ spec rootIn(s *DisjunctionHeapSearcher) bool = implies(len(s.heap) > 0, dhas(s, s.heap[0]))
+//@ spec dhsShape(s *DisjunctionHeapSearcher) bool = s.initialized && ddistinct(s) && heapEntriesOK(s) && rootIn(s) && noAlias(s.heap, s.matchingCurrs)
 //@ spec dhsInv(s *DisjunctionHeapSearcher) bool = dhsShape(s) && parkedOK(s, s.matchingCurrs, len(s.matchingCurrs))
 
 // ---- container/heap on a DisjunctionHeapSearcher (assumed; membership level) ----
@@ -36,7 +37,7 @@ package searcher
 //@   requires typeis(h, *DisjunctionHeapSearcher) && len(dsh(h).heap) > 0 && all(e, *SearcherCurr, implies(dhas(dsh(h), e), e != nil))
 //@   modifies DisjunctionHeapSearcher.heap, dsh(h).heap[*]
 //@   ensures len(dsh(h).heap) == old(len(dsh(h).heap)) - 1 && typeis(result, *SearcherCurr) && result.(*SearcherCurr) == old(dsh(h).heap[0]) && base(dsh(h).heap) == old(base(dsh(h).heap)) && cap(dsh(h).heap) == old(cap(dsh(h).heap))
-//@   ensures old(dhas(dsh(h), result.(*SearcherCurr)))
+//@   ensures old(dhas(dsh(h), result.(*SearcherCurr))) && rootIn(dsh(h))
 //@   ensures all(y, *SearcherCurr, implies(dhas(dsh(h), y), old(dhas(dsh(h), y))))
 //@   ensures implies(old(ddistinct(dsh(h))), ddistinct(dsh(h)) && !dhas(dsh(h), result.(*SearcherCurr)) && \
 //@             all(y, *SearcherCurr, implies(old(dhas(dsh(h), y)) && y != result.(*SearcherCurr), dhas(dsh(h), y))))
@@ -44,6 +45,7 @@ package searcher
 //@   requires typeis(h, *DisjunctionHeapSearcher) && typeis(x, *SearcherCurr) && x.(*SearcherCurr) != nil && all(e, *SearcherCurr, implies(dhas(dsh(h), e), e != nil))
 //@   modifies DisjunctionHeapSearcher.heap, dsh(h).heap[*]
 //@   ensures len(dsh(h).heap) == old(len(dsh(h).heap)) + 1 && (base(dsh(h).heap) == old(base(dsh(h).heap)) || fresh(dsh(h).heap)) && cap(dsh(h).heap) > 0
+//@   ensures rootIn(dsh(h))
 //@   ensures all(y, *SearcherCurr, iff(dhas(dsh(h), y), old(dhas(dsh(h), y)) || y == x.(*SearcherCurr)))
 //@   ensures implies(old(ddistinct(dsh(h))) && !old(dhas(dsh(h), x.(*SearcherCurr))), ddistinct(dsh(h)))
 
@@ -51,12 +53,13 @@ package searcher
 //@ func DisjunctionHeapSearcher.updateMatches
 //@   props C08
 //@   mode int
-//@   reveal dhas
 //@   requires s != nil && dhsShape(s)
 //@   modifies s.matching, s.matchingCurrs, s.matchingIdxs, s.matching[*], s.matchingCurrs[*], s.matchingIdxs[*], DisjunctionHeapSearcher.heap, s.heap[*]
 //@   ensures result == nil && dhsInv(s)
 //@   loop 0: invariant dhsShape(s) && s.matchingCurrs == old(s.matchingCurrs) && next != nil && entryOK(next) && !dhas(s, next) && len(matchingCurrs) >= 1 && matchingCurrs[len(matchingCurrs)-1] == next
 //@   loop 0: invariant parkedOK(s, matchingCurrs, len(matchingCurrs)) && noAlias(s.heap, matchingCurrs)
+//@   loop 0: invariant (base(matching) == old(base(s.matching)) || fresh(matching)) && (base(matchingCurrs) == old(base(s.matchingCurrs)) || fresh(matchingCurrs)) && (base(matchingIdxs) == old(base(s.matchingIdxs)) || fresh(matchingIdxs))
+//@   loop 0: invariant s.heap == old(s.heap) || base(s.heap) == old(base(s.heap))
 
 // ---- Advance: children behind the target are advanced, then the matches are recomputed ----
 //@ func DisjunctionHeapSearcher.Next
@@ -71,7 +74,6 @@ package searcher
 //@   props C08
 //@   mode int
 //@   prune
-//@   reveal dhas
 //@   requires s != nil && ctx != nil && ctx.DocumentMatchPool != nil && dhsInv(s)
 //@   modifies fields(DisjunctionHeapSearcher), fields(SearcherCurr), mem(*SearcherCurr), mem(*search.DocumentMatch), mem(int), fields(search.DocumentMatch), search.DocumentMatch.holder, search.Searcher.started, search.Searcher.last, search.Searcher.done, search.DocumentMatchPool.avail
 //@   at call searcherCurr.searcher.Advance#0 after: ghost result0.holder = searcherCurr
